@@ -295,7 +295,11 @@ def check(ctx):
                        key=f"C08.3:{cq}:{e.data['name']}:selection",
                        value=fmt(v))
                 # ... on every path on which the view exists
-                always = tm.fold(e.live, lambda t: None) is True
+                # (skipping it when `ids` is exactly 0..n-1 in order is the
+                # same selection: such a test is taken as failed)
+                always = tm.fold(
+                    e.live, lambda t: False if _identity_ids(t, ids, selfp)
+                    else None) is True
                 ctx.ob("C08.3", e, always,
                        f"{cq}.reduce_to_ids[{state_name(st)}]: "
                        f"{e.data['name']} is re-selected unconditionally"
@@ -766,6 +770,54 @@ def _transform(ctx, prog):
                    f"transform[{mode}]: {v} is not derived from the "
                    f"transformed matrices: {fmt(val)}",
                    key=f"C08.5:transform:{mode}:{v}")
+
+
+def _identity_ids(a: T, ids: T, selfp: T) -> bool:
+    """the test `ids` == [0, 1, ..., num_poses - 1] (element-wise, in order):
+    np.array_equal(ids, np.arange(n)) / list(ids) == list(range(n))"""
+    from ..lib import strip_asarray, strip_copies
+    n_forms = (tm.attr(selfp, "num_poses"),)
+
+    def is_ids(x: T) -> bool:
+        x = strip_asarray(strip_copies(x))
+        while is_call_to(x, "builtins.list", "builtins.tuple",
+                         "numpy.asarray", "numpy.array") and \
+                len(x.args[1]) >= 1:
+            x = strip_asarray(strip_copies(x.args[1][0]))
+        return x is ids
+
+    def is_iota(x: T) -> bool:
+        while is_call_to(x, "builtins.list", "builtins.tuple",
+                         "numpy.asarray", "numpy.array") and \
+                len(x.args[1]) == 1:
+            x = x.args[1][0]
+        if not is_call_to(x, "numpy.arange", "builtins.range"):
+            return False
+        args_ = list(x.args[1])
+        if len(args_) == 2 and tm.is_const(args_[0], 0):
+            args_ = args_[1:]
+        if len(args_) != 1:
+            return False
+        c = args_[0]
+        if c in n_forms:
+            return True
+        # the count spelled through one of the object's own views
+        v = None
+        if is_call_to(c, "builtins.len") and c.args[1]:
+            v = c.args[1][0]
+        elif c.op == "sub" and tm.is_const(c.args[1], 0) and \
+                c.args[0].op == "attr" and c.args[0].args[1] == "shape":
+            v = c.args[0].args[0]
+        return v is not None and v.op == "attr" and v.args[0] is selfp
+    if is_call_to(a, "numpy.array_equal") and len(a.args[1]) == 2:
+        x, y = a.args[1]
+        return (is_ids(x) and is_iota(y)) or (is_ids(y) and is_iota(x))
+    if a.op == "cmp" and a.args[0] == "Eq" and \
+            is_call_to(a.args[1], "builtins.list", "builtins.tuple") and \
+            is_call_to(a.args[2], "builtins.list", "builtins.tuple"):
+        x, y = a.args[1], a.args[2]
+        return (is_ids(x) and is_iota(y)) or (is_ids(y) and is_iota(x))
+    return False
 
 
 def _writes_M(e: Event, selfp: T) -> bool:
